@@ -1950,6 +1950,9 @@ def emitter_methods():
         ps = []
         for t, n, a in f.params:
             self.complete(t) if t[0] in ('struct', 'named') else self.ct(t)
+            if weak and t[0] == 'ptr' and t[1][0] == 'func':
+                ps.append('void*')   # function pointer typedef names (PF<n>) are not stable either
+                continue
             if weak and t[0] == 'ptr' and t[1][0] == 'named' and t[1][1] not in STABLE_STRUCTS:
                 # clang/llvm-link merge structurally identical struct types, so the pointee *name* of a
                 # bodyless function's parameter is not stable: models and stubs take void*.
